@@ -38,3 +38,25 @@ func verifSortedKeys(set map[string]struct{}) []string {
 	sort.Strings(keys)
 	return keys
 }
+
+// VerifConsts reports unexported constants as the compiler sees them, for the
+// cross-check of the verification translator (which reads them from source).
+func VerifConsts() map[string]int64 {
+	return map[string]int64{
+		"blockFilterChunkTarget":      blockFilterChunkTarget,
+		"queryRowBatchSize":           queryRowBatchSize,
+		"queryRowBatchBuffer":         queryRowBatchBuffer,
+		"queryJobBuffer":              queryJobBuffer,
+		"queryFileJobBuffer":          queryFileJobBuffer,
+		"maxCreateFileAttempts":       maxCreateFileAttempts,
+		"filterSectionFlagField":      int64(filterSectionFlagField),
+		"filterSectionFlagToken":      int64(filterSectionFlagToken),
+		"filterSectionFlagFieldToken": int64(filterSectionFlagFieldToken),
+		"filterSectionFlagsAll":       int64(filterSectionFlagsAll),
+		"scanBufferMinShift":          scanBufferMinShift,
+		"scanBufferMaxShift":          scanBufferMaxShift,
+	}
+}
+
+// VerifFlushChanCap is the capacity of this engine's flush channel.
+func (b *BloomSearchEngine) VerifFlushChanCap() int { return cap(b.flushChan) }
